@@ -396,7 +396,7 @@ def _norm(s):
 
 
 def plan(tier, seed, n):
-    per, mx = (500, 8) if tier == 'quick' else (12000, 40)
+    per, mx = (1500, 8) if tier == 'quick' else (40000, 40)
     return [{'n': per, 'maxrows': mx} for _ in range(n)]
 
 
